@@ -79,7 +79,7 @@ def retry_run(sc, rs, tier, seed):
     return r
 
 
-DL_RUN = {"harness": "hdeadline", "driver": "dldrv", "corpus": "deadline", "fields": ["st", "post", "overdue"], "custom": retry_run,
+DL_RUN = {"harness": "hdeadline", "driver": "dldrv", "corpus": "deadline", "fields": ["st", "post", "overdue", "rt", "wt", "bl"], "custom": retry_run,
           "quick": {"n": 40, "shards": 12}, "thorough": {"n": 96, "shards": 24}}
 
 STOP_RUN = {"harness": "hstop", "driver": "stopdrv", "corpus": "stopsim", "fields": ["stop", "opens", "closes"] + ["c%d" % i for i in range(64)],
@@ -147,7 +147,14 @@ PROPS = {
         "assumptions": ["the Async queue is used through its specification (FIFO, exactly once: JobQ instance, C05/C19)",
                         "user handlers closing the conn inside OnOpen are outside the model (lifecycle, C03)",
                         "goroutine/descriptor release: runtime facts, measured with a settle time of up to 5 s",
-                        "fair scheduling of the engine's own goroutines (acceptor continuation, Async drainer, pollers)"],
+                        "fair scheduling of the engine's own goroutines (acceptor continuation, Async drainer, pollers)",
+                        "the user's OnOpen/OnClose/OnStop handlers return (a handler that blocks for ever blocks Stop by design)",
+                        "real-engine cases: the numbers of registered and already closed conns (opened=/closed=) are "
+                        "read from the implementation and given to the model, which then predicts Stop's outcome and the "
+                        "final counts; they are inputs, not compared outputs",
+                        "DialAsync's addDialer-failure path is not executed by the harness (no way to make epoll_ctl fail on "
+                        "a fresh socket); it is tied by the predicates adddialer_failure_detaches_conn / "
+                        "dial_add_before_register_single_done and c18_dialfail_pinned_counterexample"],
     },
     "C16": {
         "manifest": {
